@@ -291,56 +291,55 @@ func init() {
 			if consP == nil {
 				return []Obligation{mkOb(c, "SCHEMA.constraints-at-build", u, "constraint list parameter", fd, Undecided, "getHandler has no []*LVal parameter", false)}
 			}
-			// the validating loop
-			var loop *ast.RangeStmt
-			ast.Inspect(fd.Body, func(n ast.Node) bool {
-				rs, ok := n.(*ast.RangeStmt)
-				if !ok || identObj(info, rs.X) != consP || rs.Value == nil {
+			// the validating loop: a loop over the whole list in which some test either returns or
+			// continues over an edge that establishes isValidator(<element>) — decided on the flow graph,
+			// so an if-chain, a tagless switch or a named condition are all the same test.  A test weakened
+			// by a conjunction (`!isValidator(c) && x`) establishes nothing on its continuing edge.
+			var loop ast.Stmt
+			var loopBlock *cfg.Block
+			isElem := func(rangeVal types.Object, e ast.Expr) bool {
+				if rangeVal != nil && identObj(info, e) == rangeVal {
 					return true
 				}
-				elem := identObj(info, rs.Value)
-				// an if whose condition contains !isValidator(elem) and whose body returns
-				ast.Inspect(rs.Body, func(m ast.Node) bool {
-					is, ok := m.(*ast.IfStmt)
-					if !ok {
-						return true
+				if ie, ok := resolveLocal(info, fd.Body, e).(*ast.IndexExpr); ok && identObj(info, ie.X) == consP {
+					return true
+				}
+				return false
+			}
+			for _, sl := range fc.loopsOver(func(e ast.Expr) bool { return identObj(info, e) == consP }) {
+				var rangeVal types.Object
+				if rs, ok := sl.Stmt.(*ast.RangeStmt); ok && rs.Value != nil {
+					rangeVal = identObj(info, rs.Value)
+				}
+				for _, b := range fc.G.Blocks {
+					cond := fc.CondOf(b)
+					if !fc.Live(b) || cond == nil || len(b.Nodes) == 0 {
+						continue
 					}
-					neg := false
-					ast.Inspect(is.Cond, func(k ast.Node) bool {
-						if ue, ok := k.(*ast.UnaryExpr); ok && ue.Op == token.NOT {
-							if ce, ok := ast.Unparen(ue.X).(*ast.CallExpr); ok && originOf(Callee(info, ce)) == isVal && len(ce.Args) == 1 && identObj(info, ce.Args[0]) == elem {
-								neg = true
+					// the test sits in the loop body (a synthesized switch condition has no extent
+					// of its own: the block's last node is its case expression)
+					last := b.Nodes[len(b.Nodes)-1]
+					if last.Pos() < sl.Body.Pos() || last.End() > sl.Body.End() {
+						continue
+					}
+					for k := 0; k < 2; k++ {
+						if !fc.edgeReturns(cfgEdge{b, k}, nil) {
+							continue
+						}
+						for _, a := range impliedAtoms(cond, (1-k) == 0) {
+							ce, ok := ast.Unparen(a.E).(*ast.CallExpr)
+							if ok && a.Positive && originOf(Callee(info, ce)) == isVal && len(ce.Args) == 1 && isElem(rangeVal, ce.Args[0]) {
+								loop, loopBlock = sl.Stmt, sl.Head
 							}
 						}
-						return true
-					})
-					if !neg || len(is.Body.List) == 0 {
-						return true
 					}
-					if _, ok := is.Body.List[len(is.Body.List)-1].(*ast.ReturnStmt); ok {
-						// the condition must not be weakened by a conjunction: `!isValidator(c) && x`
-						if be, ok := ast.Unparen(is.Cond).(*ast.BinaryExpr); ok && be.Op == token.LAND {
-							return true
-						}
-						loop = rs
-					}
-					return true
-				})
-				return true
-			})
+				}
+			}
 			var obs []Obligation
 			if loop == nil {
 				obs = append(obs, mkOb(c, "SCHEMA.constraints-at-build", u, "validating loop", fd, Violated, "getHandler does not refuse a non-constraint in the constraint list when the type is built: (s:deftype \"T\" \"any\" (s:not (s:make-validator \"X\" s:int 5))) then approves every value", true))
 			} else {
 				obs = append(obs, mkOb(c, "SCHEMA.constraints-at-build", u, "validating loop", loop, Proved, "a loop over the constraint list returns an error for any element that is not a validator", true))
-			}
-			var loopBlock *cfg.Block
-			if loop != nil {
-				for _, b := range fc.G.Blocks {
-					if b.Stmt == loop && b.Kind == cfg.KindRangeLoop {
-						loopBlock = b
-					}
-				}
 			}
 			// every call passing the list on
 			ord := &ordinal{}
@@ -476,8 +475,59 @@ func init() {
 			}
 			mkVal := map[string]bool{"newValidator": true, "newNamedValidator": true, "NewValidator": true}
 			var obs []Obligation
-			for _, u := range c.Funcs(func(pp string) bool { return rel(pp) == "lisp/lisplib/libschema" }) {
+			inSchema := func(pp string) bool { return rel(pp) == "lisp/lisplib/libschema" }
+			// validation-time helpers: unexported functions every one of whose call sites lies inside a
+			// validator closure or inside another validation-time function (checkKeyType, matchesAny)
+			allClosures := map[*ast.FuncLit]bool{}
+			for _, u := range c.Funcs(inSchema) {
 				info := u.Pkg.TypesInfo
+				ast.Inspect(u.Decl.Body, func(n ast.Node) bool {
+					if ce, ok := n.(*ast.CallExpr); ok {
+						if fn := Callee(info, ce); fn != nil && mkVal[shortName(originOf(fn))] {
+							for _, a := range ce.Args {
+								if fl, ok := ast.Unparen(a).(*ast.FuncLit); ok {
+									allClosures[fl] = true
+								}
+							}
+						}
+					}
+					return true
+				})
+			}
+			validationTime := map[*types.Func]bool{}
+			for changed := true; changed; {
+				changed = false
+				for _, u := range c.Funcs(inSchema) {
+					if validationTime[u.Obj] || u.Obj.Exported() {
+						continue
+					}
+					sites, refs := c.CallsTo(inSchema, u.Obj)
+					if len(refs) > 0 || len(sites) == 0 {
+						continue
+					}
+					all := true
+					for _, st := range sites {
+						in := validationTime[st.Unit.Obj]
+						for _, anc := range st.Stack {
+							if fl, ok := anc.(*ast.FuncLit); ok && allClosures[fl] {
+								in = true
+							}
+						}
+						if !in {
+							all = false
+						}
+					}
+					if all {
+						validationTime[u.Obj] = true
+						changed = true
+					}
+				}
+			}
+			for _, u := range c.Funcs(inSchema) {
+				info := u.Pkg.TypesInfo
+				if validationTime[u.Obj] {
+					continue
+				}
 				// validator closures: function literals passed to a validator constructor
 				closures := map[*ast.FuncLit]bool{}
 				ast.Inspect(u.Decl.Body, func(n ast.Node) bool {
